@@ -70,7 +70,13 @@ def _case(cid, kind, rel, arrs, horizon=None):
     arrs = _detie(arrs)
     last = max([a[0] for a in arrs] + [0])
     h = horizon or (max(last, TO) + 70000)
-    return [cid, "c05", kind, str(rel), ",".join("%d:%d:%s" % a for a in arrs), str(h)]
+    case = [cid, "c05", kind, str(rel), ",".join("%d:%d:%s" % a for a in arrs), str(h), ""]
+    te = _end_time(kind, bool(rel), [(a[0], a[1]) for a in arrs])
+    probes = []
+    if te is not None and te > 2:
+        probes = [te - 1, te + 1]
+    case.append(",".join(str(p) for p in probes if p < h and all(p != a[0] for a in arrs)))
+    return case
 
 
 def gen_cases(rng, tier):
@@ -110,7 +116,35 @@ def gen_cases(rng, tier):
 
 
 def normalize_impl(case, s):
-    return re.sub(r"\s*tsx=\d+", "", s.split("\t")[0]).strip()
+    s = re.sub(r"\s*tsx=\d+", "", s.split("\t")[0])
+    s = re.sub(r"\s*N@\d+:\d+", "", s)
+    return s.strip()
+
+
+def _end_time(kind, rel, arrs):
+    """instant at which the transaction (incl. its absorber task) releases its table entry; None = never on its own"""
+    first = arrs[0][0] if arrs else None
+    if first is None or first > TO:
+        return TO
+    if kind == "ni":
+        for (t, c) in arrs:
+            if t > TO:
+                return TO
+            if c >= 200:
+                return t + (0 if rel else T4)
+        return TO
+    state = "calling"
+    for (t, c) in arrs:
+        if state == "calling" and t > TO:
+            return TO
+        if state in ("calling", "proceeding"):
+            if c < 200:
+                state = "proceeding"
+            elif c < 300:
+                return t + TO
+            else:
+                return t + (0 if rel else C32)
+    return None if state == "proceeding" else TO
 
 
 def normalize_model(case, s):
@@ -144,6 +178,15 @@ def oracle(case, impl):
         if not m:
             return ["unparsable observation token %r" % t]
         evs.append((m.group(1), int(m.group(2)), m.group(3)))
+    counts = [(e[1], int(e[2])) for e in evs if e[0] == "N"]
+    evs = [e for e in evs if e[0] != "N"]
+    te = _end_time(kind, rel, arrs)
+    for (t, n) in counts:
+        want = 1 if (te is None or t < te) else 0
+        if te is not None and t == te:
+            continue
+        if n != want:
+            return ["transaction table holds %d entries at %d ms, expected %d (the transaction and its absorber live until %s)" % (n, t, want, te)]
     if any(e[0] == "S!" for e in evs):
         return ["a retransmission is not byte-identical to the first transmission"]
     if any(e[0] == "E" for e in evs):
@@ -211,7 +254,7 @@ def oracle(case, impl):
             if state == "proceeding":
                 t_end = None   # never ends on its own
     exp = [e for e in exp if e[1] <= horizon]
-    got = [(e[0], e[1]) + ((e[2],) if e[0] == "G" else ()) for e in evs if e[0] != "S"]
+    got = [(e[0], e[1]) + ((e[2],) if e[0] == "G" else ()) for e in evs if e[0] not in ("S", "N")]
     if got != exp:
         return ["results %r, property expects %r" % (got, exp)]
     if tsx is not None:
